@@ -343,7 +343,9 @@ def wavelet_cases(rng, tier):
             axes = _rand_axes(rng, ndim)
             axes.sort()
             L = rng.randint(0, 3)
-            shp = pywt.wavedecn_shapes(tuple(shape), w, mode='symmetric', level=L, axes=axes)
+            with warnings.catch_warnings():
+                warnings.simplefilter('ignore')
+                shp = pywt.wavedecn_shapes(tuple(shape), w, mode='symmetric', level=L, axes=axes)
             if pywt.wavedecn_size(shp) <= 1500:
                 break
         else:
@@ -383,10 +385,317 @@ def correspondence(rng, tier):
         + wavelet_cases(rng, tier)
 
 
-def probes(rng, tier):
-    return []
-
-
 LEVEL_TEXT = 'partial (to be written)'
 LEVEL_NOTE = ''
 TECHNIQUE = 'Coq proof (algebra over an abstract commutative ring, list induction) + in-Coq differential correspondence'
+
+
+# =================================================================== probes
+_PRE = "import odl, numpy as np, warnings\nwarnings.simplefilter('ignore')\n"
+
+
+def _run(snippet):
+    env = {}
+    try:
+        exec(snippet, env)
+        return bool(env.get('ok')), {'observed': env.get('observed'), 'expected': env.get('expected')}
+    except Exception as e:   # a raising property evaluation is a failure
+        return False, '%s: %s' % (type(e).__name__, str(e)[:200])
+
+
+def _probe(out, key, what, snippet):
+    ok, detail = _run(snippet)
+    out.append(C.Probe(ok, key, what, snippet, detail))
+
+
+def _arr_src(rng, shape, cplx, dt):
+    n = int(np.prod(shape))
+    re = [rng.randint(-4, 4) for _ in range(n)]
+    if cplx:
+        im = [rng.randint(-4, 4) for _ in range(n)]
+        return 'np.array(%r).reshape(%r) + 1j*np.array(%r).reshape(%r)' % (re, tuple(shape), im, tuple(shape))
+    return 'np.array(%r, dtype=%r).reshape(%r)' % (re, dt, tuple(shape))
+
+
+_REF = ("def ref(x, axes, sg, hc):\n"
+        "    if hc: return np.fft.rfftn(x, axes=axes)\n"
+        "    if sg == '-': return np.fft.fftn(x, axes=axes)\n"
+        "    return np.fft.ifftn(x, axes=axes) * np.prod([x.shape[a] for a in axes])\n")
+
+
+def _tolf(dt):
+    return 2e-4 if dt in ('float32', 'complex64') else 1e-10
+
+
+def dft_probes(rng, tier, out):
+    nper = 1 if tier == 'quick' else 4
+    shapes = [[2], [3], [4], [5], [8], [9], [2, 3], [3, 4], [4, 4], [5, 3], [2, 3, 4], [3, 2, 5]]
+    for shape in shapes:
+        nd = len(shape)
+        for dt, impl in itertools.product(DTYPES, ['numpy', 'pyfftw']):
+            for _ in range(nper):
+                real = dt.startswith('float')
+                hc = real and rng.random() < 0.5
+                sg = '-' if hc else rng.choice(['-', '+'])
+                axes = _rand_axes(rng, nd)
+                kind = 'real' if real else 'complex'
+                head = (_PRE + _REF +
+                        "dom = odl.uniform_discr(%r, %r, %r, dtype=%r)\nx = (%s).astype(%r)\naxes=%r\n"
+                        "op = odl.trafos.DiscreteFourierTransform(dom, axes=axes, sign=%r, halfcomplex=%r, impl=%r)\n"
+                        "r = ref(x, axes, %r, %r)\ntol = %r * (1 + np.abs(r).max())\n"
+                        % ([0.0] * nd, [1.0] * nd, shape, dt, _arr_src(rng, shape, not real, dt), dt, axes, sg, hc,
+                           impl, sg, hc, _tolf(dt)))
+                cfg = 'shape=%s axes=%s dtype=%s sign=%s halfcomplex=%s impl=%s' % (shape, axes, dt, sg, hc, impl)
+                # (a) equals NumPy's FFT: out-of-place (plan already made) and in-place
+                _probe(out, 'dft-equals-numpy-fft-%s-%s%s' % (impl, kind, '-hc' if hc else ''),
+                       'DiscreteFourierTransform equals np.fft (out-of-place and out=): ' + cfg,
+                       head + "op(x.copy())\ny = np.asarray(op(x.copy()))\nout = op.range.element(); op(x.copy(), out=out)\n"
+                       "observed = float(max(np.abs(y - r).max(), np.abs(np.asarray(out) - r).max())); expected = 0.0\n"
+                       "ok = observed <= tol\n")
+                # (b) the very first call of a fresh operator
+                _probe(out, ('dft-pyfftw-real-firstcall' if (impl == 'pyfftw' and real and not hc)
+                             else 'dft-firstcall-%s-%s%s' % (impl, kind, '-hc' if hc else '')),
+                       'first call of a fresh DiscreteFourierTransform equals np.fft: ' + cfg,
+                       head.replace("op = odl", "import pyfftw; pyfftw.forget_wisdom()\nop = odl") +
+                       "y = np.asarray(op(x.copy()))\nobserved = float(np.abs(y - r).max()); expected = 0.0\n"
+                       "ok = observed <= tol\n")
+                # (c) the inverse returned by the operator recovers the input
+                if real and not hc:
+                    key = 'dft-inverse-real-nonhc-pyfftw'
+                elif hc and impl == 'numpy' and shape[axes[-1]] % 2 == 1:
+                    key = 'dft-inverse-hc-odd-numpy'
+                else:
+                    key = 'dft-roundtrip-%s-%s%s' % (impl, kind, '-hc' if hc else '')
+                _probe(out, key, 'op.inverse with the same back-end recovers the input: ' + cfg,
+                       head + "inv = odl.trafos.DiscreteFourierTransformInverse(dom, axes=axes, sign=%r, halfcomplex=%r, "
+                       "impl=%r)\ny = op(x.copy()); y = op(x.copy())\nz = np.asarray(inv(y))\n"
+                       "observed = float(np.abs(z - x).max()); expected = 0.0\nok = observed <= tol\n"
+                       % ('+' if sg == '-' else '-', hc, impl))
+                _probe(out, ('dft-inverse-real-nonhc-pyfftw' if (real and not hc)
+                             else 'dft-inverse-property-%s-%s%s' % (impl, kind, '-hc' if hc else '')),
+                       'op.inverse (as returned by the operator) recovers the input: ' + cfg,
+                       head + "y = op(x.copy()); y = op(x.copy())\nz = np.asarray(op.inverse(y))\n"
+                       "observed = float(np.abs(z - x).max()); expected = 0.0\nok = observed <= tol\n")
+                # (d') the inverse leaves ITS input unchanged
+                _probe(out, ('dft-inverse-hc-pyfftw-destroys-input' if (impl == 'pyfftw' and hc and len(axes) >= 2)
+                             else 'dft-inverse-input-unchanged-%s-%s%s' % (impl, kind, '-hc' if hc else '')),
+                       'calling the inverse operator leaves its input unchanged: ' + cfg,
+                       head + "y = op(x.copy()); y = op(x.copy()); y0 = np.asarray(y).copy()\n"
+                       "inv = odl.trafos.DiscreteFourierTransformInverse(dom, axes=axes, sign=%r, halfcomplex=%r, impl=%r)\n"
+                       "try:\n    inv(y)\nexcept Exception:\n    pass\n"
+                       "observed = float(np.abs(np.asarray(y) - y0).max()); expected = 0.0\nok = observed == 0.0\n"
+                       % ('+' if sg == '-' else '-', hc, impl))
+                # (d) input not modified
+                _probe(out, 'dft-input-unchanged-%s-%s%s' % (impl, kind, '-hc' if hc else ''),
+                       'calling the operator leaves its input unchanged: ' + cfg,
+                       head + "xe = dom.element(x.copy()); op(xe); op(xe)\nok = bool(np.array_equal(np.asarray(xe), x))\n")
+
+
+def backend_probes(rng, tier, out):
+    """numpy and pyfftw return the same values, out-of-place and in-place, forward and inverse."""
+    nper = 1 if tier == 'quick' else 3
+    shapes = [[4], [5], [3, 4], [4, 5], [2, 3, 4]]
+    for shape, dt, cont in itertools.product(shapes, DTYPES, [False, True]):
+        nd = len(shape)
+        for _ in range(nper):
+            real = dt.startswith('float')
+            hc = real and rng.random() < 0.5
+            axes = _rand_axes(rng, nd)
+            allsh = rng.random() < 0.5
+            shifts = [True] * len(axes) if (allsh or hc) else [rng.random() < 0.5 for _ in axes]
+            if cont and hc:
+                shifts[-1] = True
+            sg = '-' if hc else rng.choice(['-', '+'])
+            for inv in (False, True):
+                cls = ('FourierTransform' if cont else 'DiscreteFourierTransform') + ('Inverse' if inv else '')
+                kw = "axes=%r, sign=%r, halfcomplex=%r" % (axes, ('+' if sg == '-' else '-') if inv else sg, hc)
+                if cont:
+                    kw += ", shift=%r" % (shifts,)
+                unsh = cont and not all(shifts)
+                kind = 'real' if real else 'complex'
+                if real and not hc and inv and not cont:
+                    key = 'dft-inverse-real-nonhc-pyfftw'
+                elif real and hc and inv and not cont and shape[axes[-1]] % 2 == 1:
+                    key = 'dft-inverse-hc-odd-numpy'
+                elif cont and real and unsh and not hc and inv:
+                    key = 'ft-real-unshifted-pyfftw-inverse'
+                elif cont and real and unsh and hc:
+                    key = 'ft-halfcomplex-unshifted-axis'
+                else:
+                    key = 'backends-agree-%s-%s%s%s' % (cls, kind, '-hc' if hc else '', '-unshifted' if unsh else '')
+                snippet = (_PRE +
+                           "dom = odl.uniform_discr(%r, %r, %r, dtype=%r)\n"
+                           "ops = [odl.trafos.%s(dom, impl=i, %s) for i in ('numpy', 'pyfftw')]\n"
+                           "rs = np.random.RandomState(%d)\nshp = ops[0].domain.shape\n"
+                           "x = rs.randint(-4, 5, shp) + (1j * rs.randint(-4, 5, shp) if ops[0].domain.is_complex else 0)\n"
+                           "x = x.astype(ops[0].domain.dtype)\nres = []\n"
+                           "for op in ops:\n"
+                           "    op(x.copy())\n"
+                           "    res.append(np.asarray(op(x.copy())))\n"
+                           "    out = op.range.element(); op(x.copy(), out=out); res.append(np.asarray(out))\n"
+                           "observed = float(max(np.abs(r - res[0]).max() for r in res)); expected = 0.0\n"
+                           "ok = observed <= %r * (1 + np.abs(res[0]).max())\n"
+                           % ([-1.0] * nd, [1.0] * nd, shape, dt, cls, kw, rng.randint(0, 10 ** 6), _tolf(dt)))
+                _probe(out, key, '%s(%s) on shape %s dtype %s: numpy == pyfftw, out-of-place == in-place'
+                       % (cls, kw, shape, dt), snippet)
+
+
+def ft_probes(rng, tier, out):
+    nper = 1 if tier == 'quick' else 3
+    shapes = [[2], [3], [4], [5], [8], [3, 4], [4, 3], [5, 5], [2, 3, 4]]
+    for shape, dt, impl in itertools.product(shapes, DTYPES, ['numpy', 'pyfftw']):
+        nd = len(shape)
+        for _ in range(nper):
+            real = dt.startswith('float')
+            hc = real and rng.random() < 0.5
+            axes = _rand_axes(rng, nd)
+            shifts = [rng.random() < 0.5 for _ in axes]
+            if rng.random() < 0.3:
+                shifts = [True] * len(axes)
+            if hc:
+                shifts[-1] = True
+            sg = '-' if hc else rng.choice(['-', '+'])
+            unsh = not all(shifts)
+            kind = 'real' if real else 'complex'
+            if real and unsh and hc:
+                key = 'ft-halfcomplex-unshifted-axis'
+            elif real and unsh and impl == 'pyfftw':
+                key = 'ft-real-unshifted-pyfftw-inverse'
+            else:
+                key = 'ft-roundtrip-%s-%s%s%s' % (impl, kind, '-hc' if hc else '', '-unshifted' if unsh else '')
+            mins = [rng.choice([0.0, -1.0, 0.5, -2.0]) for _ in shape]
+            sides = [rng.choice([1.0, 0.5, 0.25, 2.0]) for _ in shape]
+            head = (_PRE + "dom = odl.uniform_discr(%r, %r, %r, dtype=%r)\nx = (%s).astype(%r)\n"
+                    "ft = odl.trafos.FourierTransform(dom, axes=%r, shift=%r, sign=%r, halfcomplex=%r, impl=%r)\n"
+                    % (mins, [m + n * s for m, n, s in zip(mins, shape, sides)], shape, dt,
+                       _arr_src(rng, shape, not real, dt), dt, axes, shifts, sg, hc, impl))
+            cfg = 'shape=%s axes=%s shift=%s dtype=%s sign=%s halfcomplex=%s impl=%s' % (shape, axes, shifts, dt, sg,
+                                                                                          hc, impl)
+            _probe(out, key, 'ft.inverse(ft(x)) == x: ' + cfg,
+                   head + "z = np.asarray(ft.inverse(ft(x.copy())))\nobserved = float(np.abs(z - x).max()); expected = 0.0\n"
+                   "ok = observed <= %r * (1 + np.abs(x).max())\n" % (10 * _tolf(dt)))
+            # against the defining sum (independent oracle): s/sqrt(2pi) sinc(..) sum_j x_j exp(-+ i x_j xi_k)
+            if not (real and unsh and hc):
+                _probe(out, 'ft-equals-defining-sum-%s-%s%s%s' % (impl, kind, '-hc' if hc else '',
+                                                                   '-unshifted' if unsh else ''),
+                       'ft(x) equals the kernel-weighted direct sum over grid points: ' + cfg,
+                       head + "y = np.asarray(ft(x.copy()))\nsgn = -1 if ft.sign == '-' else 1\nacc = x.astype(complex)\n"
+                       "for ax in ft.axes:\n"
+                       "    xs = dom.grid.coord_vectors[ax]; xi = ft.range.grid.coord_vectors[ax]\n"
+                       "    s = dom.cell_sides[ax]\n"
+                       "    M = np.exp(sgn * 1j * np.outer(xi, xs)) * (s / np.sqrt(2 * np.pi) * np.sinc(xi * s / (2 * np.pi)))[:, None]\n"
+                       "    acc = np.moveaxis(np.tensordot(M, acc, axes=([1], [ax])), 0, ax)\n"
+                       "observed = float(np.abs(y - acc).max()); expected = 0.0\n"
+                       "ok = observed <= %r * (1 + np.abs(acc).max())\n" % (10 * _tolf(dt)))
+            _probe(out, 'ft-input-unchanged-%s-%s%s' % (impl, kind, '-hc' if hc else ''),
+                   'calling ft and ft.inverse leaves the inputs unchanged: ' + cfg,
+                   head + "xe = dom.element(x.copy())\ntry:\n    y = ft(xe); y0 = np.asarray(y).copy(); ft.inverse(y)\n"
+                   "    ok = bool(np.array_equal(np.asarray(xe), x) and np.array_equal(np.asarray(y), y0))\n"
+                   "except Exception:\n    ok = bool(np.array_equal(np.asarray(xe), x))\n")
+            # temporaries and a cached plan do not change the values
+            _probe(out, key if key.startswith('ft-half') else
+                   'ft-temporaries-%s-%s%s%s' % (impl, kind, '-hc' if hc else '', '-unshifted' if unsh else ''),
+                   'create_temporaries / init_fftw_plan / repeated calls give the same values: ' + cfg,
+                   head + "y0 = np.asarray(ft(x.copy())).copy()\nft.create_temporaries()\n"
+                   "if ft.impl == 'pyfftw': ft.init_fftw_plan()\n"
+                   "y1 = np.asarray(ft(x.copy())).copy(); y2 = np.asarray(ft(x.copy())).copy()\n"
+                   "observed = float(max(np.abs(y1 - y0).max(), np.abs(y2 - y0).max())); expected = 0.0\n"
+                   "ok = observed <= %r * (1 + np.abs(y0).max())\n" % (10 * _tolf(dt)))
+
+
+def gaussian_probes(rng, tier, out):
+    """Convergence to the analytic transform of a Gaussian under grid refinement."""
+    for nd in (1, 2):
+        for impl, real, sg in itertools.product(['numpy', 'pyfftw'], [True, False], ['-', '+']):
+            for shifts in itertools.product([True, False], repeat=nd):
+                for hc in ([False, True] if real and sg == '-' else [False]):
+                    if hc and not shifts[-1]:
+                        continue
+                    unsh = not all(shifts)
+                    if real and unsh and hc:
+                        key = 'ft-halfcomplex-unshifted-axis'
+                    else:
+                        key = 'ft-gaussian-convergence-%s-%s%s%s' % (impl, 'real' if real else 'complex',
+                                                                      '-hc' if hc else '', '-unshifted' if unsh else '')
+                    sizes = [16, 32, 64] if nd == 1 else [(12, 13), (24, 25), (48, 49)]
+                    snippet = (_PRE + "errs = []\nfor n in %r:\n"
+                               "    dom = odl.uniform_discr(%r, %r, n, dtype=%r)\n"
+                               "    ft = odl.trafos.FourierTransform(dom, shift=%r, sign=%r, halfcomplex=%r, impl=%r)\n"
+                               "    f = dom.element(lambda x: np.exp(-sum(xi ** 2 for xi in x) / 2))\n"
+                               "    fhat = ft(f)\n"
+                               "    true = ft.range.element(lambda x: np.exp(-sum(xi ** 2 for xi in x) / 2))\n"
+                               "    m = np.ones(fhat.shape, bool)\n"
+                               "    for ax, cv in enumerate(ft.range.grid.coord_vectors): m &= (np.abs(cv) <= 3).reshape([-1 if i == ax else 1 for i in range(len(fhat.shape))])\n"
+                               "    errs.append(float(np.abs(np.asarray(fhat) - np.asarray(true))[m].max()))\n"
+                               "observed = errs; expected = 'each refinement divides the error by >= 3 (2nd order), last <= 5e-3'\n"
+                               "ok = errs[1] <= errs[0] / 3 and errs[2] <= errs[1] / 3 and errs[2] <= 5e-3\n"
+                               % (sizes, [-8.0] * nd, [8.0] * nd, 'float64' if real else 'complex128',
+                                  list(shifts), sg, hc, impl))
+                    _probe(out, key, 'FourierTransform of a Gaussian on [-8,8]^%d converges to the Gaussian '
+                           '(shift=%s sign=%s halfcomplex=%s impl=%s)' % (nd, list(shifts), sg, hc, impl), snippet)
+
+
+def wavelet_probes(rng, tier, out):
+    import pywt
+    names = pywt.wavelist(kind='discrete')
+    sel = names if tier != 'quick' else (['haar', 'db2', 'db5', 'sym4', 'coif2', 'bior1.3', 'bior4.4', 'rbio2.2',
+                                          'dmey'] + rng.sample(names, 12))
+    for name in sel:
+        for pm in (ODL_PAD_MODES if tier != 'quick' else rng.sample(ODL_PAD_MODES, 3)):
+            nd = rng.choice([1, 2, 2, 3])
+            shape = _rand_shape(rng, nd, 2, 11, 200)
+            axes = sorted(_rand_axes(rng, nd))
+            L = rng.randint(0, 3)
+            snippet = (_PRE + "sp = odl.uniform_discr(%r, %r, %r)\n"
+                       "W = odl.trafos.WaveletTransform(sp, %r, nlevels=%d, pad_mode=%r, axes=%r)\n"
+                       "x = sp.element(np.random.RandomState(%d).randint(-4, 5, %r).astype(float))\n"
+                       "try:\n    z = W.inverse(W(x)); observed = float(np.abs(np.asarray(z) - np.asarray(x)).max())\n"
+                       "    ok = z.shape == x.shape and observed <= 1e-9\n"
+                       "except ValueError as e:\n"
+                       "    ok = '[anti]reflect' in str(e)   # PyWavelets' own restriction on length-1 signals\n"
+                       % ([0.0] * nd, [1.0] * nd, shape, name, L, pm, axes, rng.randint(0, 10 ** 6), tuple(shape)))
+            _probe(out, 'wavelet-reconstruction-dmey-approximate-filter' if name == 'dmey'
+                   else 'wavelet-reconstruction-%s' % pm,
+                   'W.inverse(W(x)) == x for %s, nlevels=%d, pad_mode=%s, shape=%s, axes=%s' % (name, L, pm, shape, axes),
+                   snippet)
+    # adjoint identity: orthogonal wavelets, periodic extension
+    orth = [n for n in names if pywt.Wavelet(n).orthogonal]
+    for name in (orth if tier != 'quick' else ['haar', 'db2', 'db4', 'sym3', 'coif1'] + rng.sample(orth, 6)):
+        for pm in ('pywt_periodic', 'periodic'):
+            for parity in ('even', 'odd'):
+                nd = rng.choice([1, 2])
+                L = rng.randint(1, 3)
+                if parity == 'even':      # every level length even on every axis
+                    shape = [2 ** L * rng.randint(1, 4) for _ in range(nd)]
+                else:
+                    shape = [2 ** (L - 1) * (2 * rng.randint(1, 3) + 1) for _ in range(nd)]
+                if pm == 'periodic':
+                    key = 'wavelet-adjoint-padmode-periodic'
+                elif parity == 'odd':
+                    key = 'wavelet-adjoint-periodization-odd-length'
+                else:
+                    key = 'wavelet-adjoint-periodization-even'
+                sides = [rng.choice([1.0, 0.5, 2.0]) for _ in shape]
+                snippet = (_PRE + "sp = odl.uniform_discr(%r, %r, %r)\n"
+                           "W = odl.trafos.WaveletTransform(sp, %r, nlevels=%d, pad_mode=%r)\n"
+                           "rs = np.random.RandomState(%d)\n"
+                           "x = sp.element(rs.randint(-4, 5, %r).astype(float)); y = W.range.element(rs.randint(-4, 5, W.range.size).astype(float))\n"
+                           "lhs = W(x).inner(y); rhs = x.inner(W.adjoint(y))\n"
+                           "lhs2 = W.inverse(y).inner(x); rhs2 = y.inner(W.inverse.adjoint(x))\n"
+                           "observed = [float(lhs - rhs), float(lhs2 - rhs2)]; expected = [0.0, 0.0]\n"
+                           "ok = abs(lhs - rhs) <= 1e-9 * (1 + abs(lhs)) and abs(lhs2 - rhs2) <= 1e-9 * (1 + abs(lhs2))\n"
+                           % ([0.0] * nd, [n * s for n, s in zip(shape, sides)], shape, name, L, pm,
+                              rng.randint(0, 10 ** 6), tuple(shape)))
+                _probe(out, key, '<Wx,y> == <x,W.adjoint y> and the same for W.inverse: %s nlevels=%d pad_mode=%s shape=%s'
+                       % (name, L, pm, shape), snippet)
+
+
+def probes(rng, tier):
+    C.setup_impl_path()
+    out = []
+    dft_probes(rng, tier, out)
+    backend_probes(rng, tier, out)
+    ft_probes(rng, tier, out)
+    gaussian_probes(rng, tier, out)
+    wavelet_probes(rng, tier, out)
+    return out
